@@ -100,6 +100,7 @@ Definition g_hop (s : sx) : hop :=
   else if k =? "num" then ONum (gnat (nthx 1 l))
   else if k =? "list" then OList (gnat (nthx 1 l))
   else if k =? "iter" then OIter (gnat (nthx 1 l)) (g_filter (nthx 2 l))
+  else if k =? "copy" then OCopy (gnat (nthx 1 l))
   else ODisturb (gI (nthx 1 l)).
 Definition sx_view (v : view) : sx :=
   match v with
@@ -126,6 +127,8 @@ Definition g_eop (s : sx) : eop :=
   else if k =? "mnem" then EMnem (gnat (nthx 1 l))
   else if k =? "decoder" then EDecoder (gnat (nthx 1 l))
   else if k =? "redecode" then ERedecode (gnat (nthx 1 l))
+  else if k =? "copyinfo" then ECopyInfo
+  else if k =? "reopen" then EReopen
   else ERead (gnat (nthx 1 l)).
 Definition sx_eans (a : eans) : sx :=
   match a with
@@ -134,6 +137,7 @@ Definition sx_eans (a : eans) : sx :=
   | EAMnem None => SL [SS "mnem"; sx_none]
   | EAMnem (Some l) => SL [SS "mnem"; sx_items l]
   | EAErr e => sx_of_err e
+  | EAUnit => SL [SS "unit"]
   | EABad => SL [SS "bad"]
   end.
 (* the stateless oracle of an index whose entries are [ents], the first at [off] *)
